@@ -33,6 +33,9 @@ func rawExchange(addr string, reqBytes []byte, method string, timeout time.Durat
 }
 
 // rawExchangeP additionally reports the number of body bytes received so far (arrival of flushed segments)
+// rawAfterSend, when set, runs on the connection once the request has been sent (a client that half-closes, for instance)
+var rawAfterSend func(net.Conn)
+
 func rawExchangeP(addr string, reqBytes []byte, method string, timeout time.Duration, progress func(n int)) wireResp {
 	return rawExchangeGated(addr, reqBytes, method, timeout, progress, len(reqBytes), nil)
 }
@@ -62,6 +65,9 @@ func rawExchangeGated(addr string, reqBytes []byte, method string, timeout time.
 			out.Err = err.Error()
 			return out
 		}
+	}
+	if f := rawAfterSend; f != nil {
+		f(conn)
 	}
 	br := bufio.NewReader(conn)
 	for {
